@@ -214,6 +214,11 @@ func c17Run(c c17Case) Outcome {
 	desc := fmt.Sprintf("stream of %d octets cut at %d, %d mutations", len(stream), n, len(c.Muts))
 	if !returned {
 		gs := h.ConnGoroutines()
+		if len(gs) == 0 {
+			// bounded-time clause: a timeout alone is not evidence (DESIGN 5.4). No goroutine of this
+			// connection is left in the dump, so ServeConn is returning (late, on a busy machine), not stuck.
+			return Outcome{Inconcl: "ServeConn had not returned after 6s but no goroutine of the connection is left (machine too slow)"}
+		}
 		all := ""
 		for _, g := range gs {
 			all += firstLines(g, 10) + "\n"
